@@ -12,10 +12,18 @@ Definition c03_analyze (root : str) (l : layout) : list (str * str * str * bool)
 (* commands.ts level: (invoke name, canonical Promise type) per wrapper *)
 Definition c03_wrappers (root : str) (l : layout) : list (str * str) :=
   canon_pairs (map wobs (emit (analyze root l))).
-(* build-script histories: (invoke name, canonical Promise type) per wrapper after each run,
-   starting from an empty output directory *)
-Definition c03_history (root : str) (ls : list layout) : list (list (str * str)) :=
-  map (fun ws => canon_pairs (map wobs ws)) (build_history root None ls).
+(* histories: per run (route, forced, tree), starting from an empty output directory:
+   (invoke name, canonical Promise type) per wrapper after the run, and whether the run is in
+   the recorded class C03-3 *)
+Definition c03_history (root : str) (steps : list (bool * bool * layout)) : list (list (str * str) * bool) :=
+  let mk := fun (x : bool * bool * layout) =>
+    {| s_route := if fst (fst x) then RCli else RBuild; s_force := snd (fst x); s_tree := snd x |} in
+  (fix go (st : option (list cmd)) (l : list step) : list (list (str * str) * bool) :=
+     match l with
+     | [] => []
+     | s :: r => let st' := run_step root s st in
+                 (canon_pairs (map wobs (commands_ts st')), stale_step root s st) :: go st' r
+     end) None (map mk steps).
 Definition c03_spec (l : layout) : list (str * str) := canon_pairs (map spec_obs (annotated_spec l)).
 Definition c03_spec_files (l : layout) : list (list str) := map fst (annotated_spec l).
 Definition c03_read (ts : str) : option (list wrapper_obs) := read_wrappers ts.
